@@ -1,6 +1,11 @@
 """Shared machinery of the checks: paths, Lean build/audit/driver, workers, evidence, verdicts."""
 import fcntl, json, os, re, shutil, subprocess, sys, tempfile, time, hashlib
 
+try:
+    sys.set_int_max_str_digits(0)
+except AttributeError:
+    pass
+
 VERIF = os.path.dirname(os.path.dirname(os.path.abspath(__file__)))
 REPO = os.environ.get("PYSNARK_REPO", "/repo")
 LEAN = os.path.join(VERIF, "lean")
